@@ -242,6 +242,8 @@ def work(unit):
             companions_pool = [[]] + [[c] for c in cells] + [list(p) for p in itertools.combinations(cells, 2)]
             if order >= 3:
                 companions_pool = companions_pool[:: 3]
+            if order >= 4:
+                companions_pool = [[], [cells[0]], [cells[-1]]]
             for pos in range(order):
                 level = fmt.ordering.index(pos)
                 mode = fmt.modes[level].name
